@@ -27,6 +27,11 @@ CLAIMED = {
          "attribute values as unconstrained z3 integers and a raise-Boolean per cleanup; real runs with cleanups registered by "
          "hooks at every level and by steps (current layer / layer=feature / layer=testrun)", "DESIGN.md 4/C13",
          "symbolic execution of real code + z3 (bounded histories, symbolic values and fault flags)"),
+ "C14": ("the real SummaryReporterV1 (all five output formats, attached as reporters so that run_model's reporter.feature/end loop "
+         "is executed) and SummaryCollector are run on every path of the stage-1 exploration (outcomes over Z, stop/dry-run/selection/"
+         "hook faults symbolic) and on a stage-2 kernel with symbolic step statuses; printed numbers are parsed back and compared "
+         "with a direct census of the model", "DESIGN.md 4/C14",
+         "symbolic execution of real code + z3 (path space by solver, per-path numeric comparison)"),
 }
 NA_REASON = "check not built yet in this round (planned, see DESIGN.md section 4)"
 checks = []
